@@ -89,4 +89,34 @@ theorem foldl_max_ge (xs : List Int) (a : Int) : a ≤ xs.foldl max a ∧ (∀ x
         · left; omega
       · right; right; exact h3
 
+
+theorem mem_dedupL {α} [DecidableEq α] (x : α) : ∀ l : List α, x ∈ dedupL l ↔ x ∈ l
+  | [] => by simp [dedupL]
+  | y :: ys => by
+    have ih := mem_dedupL x ys
+    simp only [dedupL]
+    split
+    · rename_i h
+      constructor
+      · intro hx; exact List.mem_cons_of_mem _ (ih.1 hx)
+      · intro hx
+        rcases List.mem_cons.1 hx with rfl | hx
+        · exact h
+        · exact ih.2 hx
+    · simp [ih]
+
+theorem dedupL_map_some {α} [DecidableEq α] : ∀ l : List α, dedupL (l.map some) = (dedupL l).map some
+  | [] => by simp [dedupL]
+  | y :: ys => by
+    have ih := dedupL_map_some ys
+    simp only [List.map_cons, dedupL, ih]
+    by_cases h : y ∈ dedupL ys
+    · simp [h]
+    · simp [h]
+
+theorem filter_isSome_eq_map {α} : ∀ l : List (Option α), l.filter Option.isSome = (l.filterMap id).map some
+  | [] => rfl
+  | none :: xs => by simp [filter_isSome_eq_map xs]
+  | some x :: xs => by simp [filter_isSome_eq_map xs]
+
 end PonyVerif.Model.Q
